@@ -6,16 +6,18 @@ syntactic changes of the library's non-test, non-Python-binding source (comparis
 optionally +-1 constants), and for each one
   1. applies it in the scratch worktree /tmp/vfy and runs the repository's own 81 tests there
      (a change the tests already catch is of no interest),
-  2. if the tests still pass, runs the quick tier of the checks responsible for that file against /repo
-     with the change applied (tools/run_on_patch.sh: git apply, check, git checkout -- .; evidence goes to
-     a scratch directory), and records which checks report it.
-Nothing is committed to /repo. Output: <out>/results.jsonl (one line per change) and the patches of the
+  2. if the tests still pass, runs the quick tier of the checks responsible for that file against the
+     changed scratch worktree: a scratch copy of /verif (check, engine/, known_findings.json) under
+     /tmp/mutverif whose engine depends on /tmp/vfy instead of /repo, so that /repo and /verif are never
+     touched and ordinary work on them can go on meanwhile; records which checks report the change.
+Nothing is committed anywhere. Output: <out>/results.jsonl (one line per change) and the patches of the
 changes that no check reported (to be analysed by hand: equivalent change, or a gap).
 """
 import glob, json, os, re, subprocess, sys
 
 REPO = "/repo"
 VFY = "/tmp/vfy"
+MUTVERIF = "/tmp/mutverif"
 ENV = dict(os.environ, CARGO_TARGET_DIR="/tmp/vfy_target", CARGO_NET_OFFLINE="true", RUST_BACKTRACE="0")
 
 CHECKS = [
@@ -142,6 +144,9 @@ def main():
     os.makedirs(out, exist_ok=True)
     if not os.path.isdir(VFY):
         sh(f"git -C {REPO} worktree add --detach {VFY} HEAD")
+    # scratch copy of the checks, bound to the scratch worktree
+    sh(f"rm -rf {MUTVERIF}/engine/src {MUTVERIF}/check; mkdir -p {MUTVERIF}/engine /tmp/mutverif_out && cp -r /verif/check /verif/known_findings.json {MUTVERIF}/ && cp -r /verif/engine/src /verif/engine/Cargo.toml /verif/engine/Cargo.lock /verif/engine/.cargo {MUTVERIF}/engine/ && cp /verif/known_findings.json /tmp/mutverif_out/")
+    sh(f"sed -i 's#path = \"/repo\"#path = \"{VFY}\"#' {MUTVERIF}/engine/Cargo.toml && sed -i 's#/verif/target#{MUTVERIF}/target#' {MUTVERIF}/engine/.cargo/config.toml")
     head = sh(f"git -C {REPO} rev-parse HEAD")[1].strip()
     sh(f"git checkout -q --detach {head} && git checkout -q -- . && git clean -fdq", cwd=VFY)
     ms = mutants(ops, only)
@@ -167,8 +172,13 @@ def main():
             patch = os.path.join(out, f"m{n:03d}.diff")
             sh(f"git diff > {patch}", cwd=VFY)
             ids = checks_for(f)
-            rc, o = sh(f"/verif/tools/run_on_patch.sh {patch} quick {ids}", cwd="/verif", env=dict(os.environ))
+            o = ""
+            for cid in ids.split():
+                rc, oo = sh(f"./check {cid} quick 2>/dev/null", cwd=MUTVERIF, env=dict(os.environ, VERIF_DIR="/tmp/mutverif_out"))
+                keys = " ".join(re.findall(r"^  key=(\S+)", oo, re.M))[:300]
+                o += f"{cid} rc={rc} {keys}\n"
             rec["checks_run"] = ids.split()
+            rec["keys"] = o[:1500]
             caught = re.findall(r"^(C\d\d) rc=1", o, re.M)
             broken = re.findall(r"^(C\d\d) rc=(?!0|1)\d+", o, re.M)
             rec["reported_by"] = caught
